@@ -90,6 +90,8 @@ class SyncWorld:
                 ret = e[1]
             elif k == 'raise':
                 raise HandlerError(e[1] if len(e) > 1 else 'handler failure')
+            elif k == 'raise_type':
+                raise TypeError('application bug inside the handler')
             elif k == 'send':
                 self.server.send(e[1], e[2])
             elif k == 'disconnect':
